@@ -72,6 +72,9 @@ func propC07(c *Ctx) string {
 	c07ReqTokens(c, v, "C07")
 	// the Incoming store of a resumed session is what makes a retransmitted PUBREL find its PUBLISH
 	c08Setup(c, v)
+	// a take-over hands the session on only after the old connection has terminated (its processor may still be
+	// between Backend.Publish and the release of the stored message)
+	c13Setup(c, v)
 
 	c.NotDecide("arbitrary interleavings of retransmitted PUBLISH/PUBREL with connection failures (schedules, crash points)",
 		"custom Backend implementations that acknowledge late or from another goroutine: only the closure contents and MemoryBackend.Publish are decided",
